@@ -221,19 +221,32 @@ def check_to_bqm(ctx: Ctx, fi: FuncInfo):
     idx = q.stmt_index(fi.body, loop)
     merged = [s for s in fi.body[:idx] if isinstance(s, ast.Assign) and norm(s.targets[0]) == exprs and isinstance(s.value, ast.Call) and (dotted(s.value.func) or "").split(".")[-1] == "merge_expressions" and norm(s.value.args[0]) == exprs]
     ctx.check(len(merged) == 1, "RW-INLINE", fi, "definitions are inlined to return expressions first", f"{exprs} = merge_expressions({exprs})", "the model is built from the raw definition list: shared intermediates become unconstrained variables of the model", loop)
+    def is_binary_of(v, key: str) -> bool:
+        return isinstance(v, ast.Call) and (dotted(v.func) or "").split(".")[-1] == "Binary" and len(v.args) == 1 and not v.keywords and norm(v.args[0]) == key
+
+    def is_binary(v) -> bool:
+        return isinstance(v, ast.Call) and (dotted(v.func) or "").split(".")[-1] == "Binary"
+
     # a binary for each argument bit
-    ok = False
+    verdict = None
     for l in q.for_loops(fi.node):
         if norm(l.iter) == args:
-            inner = [m for m in q.for_loops(l, nested=True) if m is not l and norm(m.iter) == f"{norm(l.target)}.bitvec"]
-            if inner:
+            inner = [m for m in q.for_loops(l, nested=True) if m is not l and norm(q.reversal_parity(m.iter)[0]) == f"{norm(l.target)}.bitvec"]
+            if len(inner) == 1 and len(l.body) == 1 and len(inner[0].body) == 1:
                 st = [n for n in ast.walk(inner[0]) if isinstance(n, ast.Assign) and isinstance(n.targets[0], ast.Subscript)]
                 b = norm(inner[0].target)
-                ok = len(st) == 1 and norm(st[0].targets[0].slice) == b and norm(st[0].value) == f"Binary({b})"
-    ctx.check(ok, "MP-vars", fi, "one binary variable per argument bit", "a_vars[b] = Binary(b) for every b of every arg.bitvec", "not every argument bit gets a model variable of its own name", fi.node)
+                if len(st) == 1 and is_binary(st[0].value):
+                    verdict = (norm(st[0].targets[0].slice) == b and is_binary_of(st[0].value, b), st[0])
+    if verdict is None:
+        ctx.undecided(fi.short, "the model variables of the argument bits are not created by `for arg in args: for b in arg.bitvec: vars[b] = Binary(b)`")
+    else:
+        ctx.check(verdict[0], "MP-vars", fi, "one binary variable per argument bit", "a_vars[b] = Binary(b) for every b of every arg.bitvec", f"`{norm(verdict[1])}`: an argument bit does not get a model variable of its own name", verdict[1])
     sym = norm(loop.target.elts[0])
-    st = [n for n in loop.body if isinstance(n, ast.Assign) and isinstance(n.targets[0], ast.Subscript) and norm(n.targets[0].slice) == f"{sym}.name" and norm(n.value) == f"Binary({sym}.name)"]
-    ctx.check(len(st) == 1, "MP-vars", fi, "one binary variable per defined symbol", "", "", loop)
+    st = [n for n in loop.body if isinstance(n, ast.Assign) and isinstance(n.targets[0], ast.Subscript) and is_binary(n.value)]
+    if len(st) != 1:
+        ctx.undecided(fi.short, f"{len(st)} model variables are created per definition (one confirmed by hand)")
+    else:
+        ctx.check(norm(st[0].targets[0].slice) == f"{sym}.name" and is_binary_of(st[0].value, f"{sym}.name"), "MP-vars", fi, "one binary variable per defined symbol", "", f"`{norm(st[0])}`: the defined symbol does not get a model variable of its own name", st[0])
     # the _ret branch goes through the visitor with the whole expression
     ex = norm(loop.target.elts[1])
     ret_br = [n for n in ast.walk(loop) if isinstance(n, ast.If) and "_ret" in norm(n.test)]
@@ -257,16 +270,22 @@ def check_to_bqm(ctx: Ctx, fi: FuncInfo):
     offered = sorted(e.value for e in ast.walk(lit) if isinstance(e, ast.Constant) and isinstance(e.value, str)) if lit is not None else []
     fmt = fi.params[3]
     impl = {}
-    last_chain = [s for s in fi.body if isinstance(s, ast.If) and norm(s.test).startswith(f"{fmt} ==")]
-    if len(last_chain) != 1:
+    first = [i for i, s in enumerate(fi.body) if isinstance(s, ast.If) and norm(s.test).startswith(f"{fmt} ==")]
+    if not first:
         raise AnchorError(fi.short, "format chain not found")
-    ch, els = q.if_chain(last_chain[0])
+    ch, els = q.dispatch_chain(fi.body[first[0]:])
+    if els is None:
+        raise AnchorError(fi.short, "the format dispatch is neither one if/elif chain nor a sequence of returning ifs")
+    mdl = [n for n in walk_no_nested(fi.node) if isinstance(n, ast.Assign) and isinstance(n.value, ast.Call) and isinstance(n.value.func, ast.Attribute) and n.value.func.attr == "compile" and not n.value.args]
+    model = norm(mdl[0].targets[0]) if len(mdl) == 1 else "model"
     for test, body in ch:
+        if not (isinstance(test, ast.Compare) and len(test.comparators) == 1 and isinstance(test.comparators[0], ast.Constant) and norm(test.left) == fmt):
+            raise AnchorError(fi.short, f"format test `{norm(test)}` is not a comparison of `{fmt}` with a literal")
         k = test.comparators[0].value
-        impl[k] = norm(body[0].value) if isinstance(body[0], ast.Return) else "?"
+        impl[k] = norm(body[0].value).replace(model, "model") if isinstance(body[0], ast.Return) and body[0].value is not None else "?"
     want = {"bqm": "model.to_bqm()", "ising": "model.to_ising()", "qubo": "model.to_qubo()", "pq_model": "model"}
-    ctx.check(sorted(impl) == offered and all(impl.get(k) == v for k, v in want.items()), "DP-TABLE", fi, "formats offered = formats implemented, each by its own conversion", str(impl), f"BQMFormat offers {offered}; implemented: {impl}", last_chain[0])
-    ctx.check(bool(els) and isinstance(els[-1], ast.Raise), "DP-CLOSED", fi, "unknown formats raise", "", "", last_chain[0])
+    ctx.check(sorted(impl) == offered and all(impl.get(k) == v for k, v in want.items()), "DP-TABLE", fi, "formats offered = formats implemented, each by its own conversion", str(impl), f"BQMFormat offers {offered}; implemented: {impl}", fi.body[first[0]])
+    ctx.check(bool(els) and isinstance(els[-1], ast.Raise), "DP-CLOSED", fi, "unknown formats raise", "", "an unknown format falls through without an error", fi.body[first[0]])
 
 
 def check_decode(ctx: Ctx, fi: FuncInfo):
